@@ -31,6 +31,9 @@ struct vm_params {
 	uint32_t stop_at;         /* ... when it processes its stop_at-th event */
 	double term_time;         /* termination time (0: none) */
 	uint32_t total_target;    /* sum of targets (size of the run) */
+	uint32_t sparse_div;      /* one in sparse_div hops aimed at the sparse LP really reaches it */
+	int sparse_lp;            /* an LP that receives an event only once in a while and is done after one or two (-1: none): its terminating
+	                             event is usually speculative and, once cancelled, nothing else reaches it for a long time */
 };
 
 struct vm_state {
